@@ -19,6 +19,10 @@
         invariant and no push overflows), under ONE hypothesis that is not proved here: every code
         position the UNLIMITED run reaches is an instruction boundary (control-flow safety of the
         engine without a limit: C10's frame discipline of the two stacks).
+        UPDATE (end of this file): the hypothesis is discharged for every program the writer emits --
+        C13_limit_dichotomy_compiled (via a verified bytecode verifier: C13_limit_dichotomy_typed,
+        C13_every_compiled_program_is_accepted); C13_limit_dichotomy_partial remains the statement for
+        ARBITRARY programs.
      "the Regexp stays fully usable afterwards" is C12's runner_ok_preserved, not restated here. *)
 From Verif Require Import Base.Prelude Model.Tree Model.Spec Model.VM Model.Writer Gen.RunnerGen
   Proofs.VMLimitProofs Proofs.VMLimitSimProofs Proofs.VMCapacityProofs.
@@ -262,3 +266,55 @@ Print Assumptions C13_limit_dichotomy_compiled_typed.
 (* the non-vacuity program of this file is accepted by the verifier *)
 Example C13_witness_typed : tyck_auto c13_prog = true.
 Proof. vm_compute. reflexivity. Qed.
+
+(* ---- the first sentence of C13 for EVERY program the writer emits, no hypothesis ----
+   Proofs/CompileTyEmit.v (compiled_tyck): every emitted program -- any tree, any writer configuration (slot map,
+   quick program) -- is accepted by the verifier; with C13_compiled_push_weight and C13_limit_dichotomy_typed:
+   under any limit the scan is ErrBacktrackingStackLimit or agrees with the unlimited scan in every outcome
+   (result, error, crash reason, fuel exhaustion).  Every input, every fuel.  This discharges the control-flow
+   hypothesis of C13_limit_dichotomy_partial for compiled programs (TrackCount as counted on the code, which
+   is what syntax.Write stores). *)
+From Verif Require Import Proofs.CompileTyEmit Proofs.CompileSafe.
+
+Theorem C13_limit_dichotomy_compiled :
+  forall c root strs cs e L fuel rtl start prevlen,
+  let code := fst (compile c root) in
+  let p := {| codes := code; strings := strs; trackcount := track_count code; capsize := cs |} in
+  let r1 := vm_find e p L fuel rtl start prevlen in
+  let r2 := vm_find e p (-1) fuel rtl start prevlen in
+  r1 = Err E_StackLimit \/
+  match r1, r2 with
+  | Ok a, Ok b => same_result a b
+  | Err c, Err c' => c = c'
+  | Crash w, Crash w' => w = w'
+  | Fuel, Fuel => True
+  | _, _ => False
+  end.
+Proof. exact compiled_limit_dichotomy. Qed.
+Print Assumptions C13_limit_dichotomy_compiled.
+
+Theorem C13_every_compiled_program_is_accepted :
+  forall c root p, codes p = fst (compile c root) -> track_count (codes p) <= trackcount p ->
+  exists sh, tyck p sh = true.
+Proof. exact compiled_tyck. Qed.
+Print Assumptions C13_every_compiled_program_is_accepted.
+
+(* ... and for supported trees the unlimited scan itself never faults: both scans return, or both run out of fuel *)
+Theorem C13_dichotomy_for_supported :
+  forall (e : env) (p : program), 0 <= trackcount p -> track_count (codes p) <= trackcount p -> tlen e <= INF ->
+  forall fuel o body,
+  let root := NCapture o 0 (-1) body in
+  codes p = fst (compile cfg0 root) -> strings p = snd (compile cfg0 root) ->
+  supported2 root = true -> groups_ok2 (capsize p) root -> Z.of_nat fuel <= INF ->
+  (forall t, 0 <= t <= tlen e -> exists r, attempt e fuel root t = Ok r) ->
+  forall L vfuel rtl start prevlen, 0 <= start <= tlen e ->
+    let r1 := vm_find e p L vfuel rtl start prevlen in
+    let r2 := vm_find e p (-1) vfuel rtl start prevlen in
+    (r1 = Err E_StackLimit /\ 0 <= L) \/
+    match r1, r2 with
+    | Ok a, Ok b => same_result a b
+    | Fuel, Fuel => True
+    | _, _ => False
+    end.
+Proof. exact compile_find_dichotomy. Qed.
+Print Assumptions C13_dichotomy_for_supported.
